@@ -1,6 +1,8 @@
 package c10
 
 import (
+	"bytes"
+	"encoding/hex"
 	"encoding/json"
 	"fmt"
 	"math/big"
@@ -8,9 +10,12 @@ import (
 	"sync"
 	"time"
 
+	sdk "github.com/cosmos/cosmos-sdk/types"
 	"github.com/ethereum/go-ethereum/common"
+	gethtypes "github.com/ethereum/go-ethereum/core/types"
 
 	ethclient "github.com/teleport-network/teleport/x/xibc/clients/light-clients/eth/types"
+	clienttypes "github.com/teleport-network/teleport/x/xibc/core/client/types"
 
 	"verif/internal/checks/c07"
 	"verif/internal/ev"
@@ -91,11 +96,229 @@ func PoW(r *ev.Run, tier string) (evals int64, err error) {
 				r.Violation("C10:pow-or-difficulty-mutation-accepted/"+c.name, fmt.Sprintf("main-net header %d with %s accepted on chain id 1", hs[1].Number, c.name), map[string]interface{}{"engine": "c10-pow", "case": c.name})
 			}
 			if uerr != nil && !c.mustReject {
-				r.Note(fmt.Sprintf("recorded main-net header rejected: %v (environment problem? informational)", uerr))
-				r.Outcome("recorded header rejected (informational)")
+				r.Violation("C10:valid-child-of-stored-header-rejected/recorded-main-net-header", fmt.Sprintf("recorded main-net header %d, child of the trusted header %d, rejected on chain id 1: %v", hs[1].Number, hs[0].Number, uerr), map[string]interface{}{"engine": "c10-pow", "case": c.name})
 			}
 		}()
 	}
 	wg.Wait()
 	return evals, nil
+}
+
+// --- proof-of-work headers around an ethash epoch boundary -------------------------------------------------------
+
+// epochFixture is a header tree on chain id 1 whose seals were mined once (16 cores, about five minutes; the miner is
+// kept in tools/powmine.go.txt) against the epoch-0 cache (29999) and the epoch-1 cache (30000, 30001):
+//
+//	T(29998) - A1(29999) - A2(30000) - A3(30001)
+//	                     \ B2(30000) - B3(30001)
+//
+// Height 30000 is the first block of ethash epoch 1. Every header obeys all rules relative to its parent; being mined,
+// each is valid for any correct ethash verifier.
+var epochFixture = []struct {
+	name, parent string
+	height       uint64
+	dt           uint64
+	tag          byte
+	nonce        uint64
+	mix, hash    string
+}{
+	{"T", "", 29998, 0, 0xa0, 0, "", "0xfe8f9099d23f6e81c24d70f475930c5708fc1534500b069cbf99cea53af84f8c"},
+	{"A1", "T", 29999, 13, 0xa1, 255878, "232840bc19bbfaba63cc5a4b1ca36c2162411417ea5cb9ae7c524dfabe46932b", "0xa8dac7df391e46c224a7c67481502d03845af331ecc68045a80e8a52ca0370c3"},
+	{"A2", "A1", 30000, 26, 0xa2, 37480, "0e6d4f6f7fa8bb7b86d01128a37d1e8fc95dde7e03dc59f3eec2ba5ca98a6344", "0xb075a6aa7a08fae8ded2ef67c818513e9614d211621d9c79ac578de272d3559b"},
+	{"A3", "A2", 30001, 39, 0xa3, 39370, "6a8c860563f677fa1a0b4957b5a9b9b10c3d8935556401cb9a9baa60acd986bb", "0x1da97c4dab8cfb3025deeedb421e8807c30b1a286b1b677c25bd4baae44e9fd2"},
+	{"B2", "A1", 30000, 27, 0xb2, 51049, "7de9b792e80a9352c91b801b53f3e0bfa80e5177b3b3b00f830f02859e46de84", "0x259246ad42678f0731ddaf72501bc95acbb4702737c89611c6f28c7c38298b89"},
+	{"B3", "B2", 30001, 41, 0xb3, 170199, "471c478af91c2cb3cd277ffb4ca20e4700784b8dda7bfd4230311d9f7c45dd39", "0xf693d4c905de136199bc5d19eb506277e02946b7526711da143143b3a83ec796"},
+}
+
+const epochT0 = uint64(1700000000)
+
+func epochHeaders() map[string]ethclient.Header {
+	out := map[string]ethclient.Header{}
+	for _, f := range epochFixture {
+		root := make([]byte, 32)
+		root[0], root[31] = f.tag, byte(f.height)
+		mix := make([]byte, 32)
+		if f.mix != "" {
+			mix, _ = hex.DecodeString(f.mix)
+		}
+		parent := make([]byte, 32)
+		if f.parent != "" {
+			parent = common.HexToHash(epochHash(f.parent)).Bytes()
+		}
+		out[f.name] = ethclient.Header{
+			ParentHash: parent, UncleHash: gethtypes.EmptyUncleHash[:], Coinbase: make([]byte, 20), Root: root,
+			TxHash: gethtypes.EmptyRootHash[:], ReceiptHash: gethtypes.EmptyRootHash[:], Bloom: make([]byte, 256),
+			Difficulty: big.NewInt(131072).Bytes(), Height: clienttypes.NewHeight(0, f.height), GasLimit: 8000000, GasUsed: 4000000,
+			Time: epochT0 + f.dt, Extra: []byte("verif"), MixDigest: mix, Nonce: f.nonce, BaseFee: big.NewInt(1000000000).Bytes(),
+		}
+	}
+	return out
+}
+
+func epochHash(name string) string {
+	for _, f := range epochFixture {
+		if f.name == name {
+			return f.hash
+		}
+	}
+	panic(name)
+}
+
+// EpochBoundary submits the mined tree in every order that puts parents before children (and, thorough, in orders with
+// one premature child) to a proof-of-work client created at T, plus seal mutations of the first header of the new epoch.
+func EpochBoundary(r *ev.Run, tier string) (evals int64) {
+	hs := epochHeaders()
+	for _, f := range epochFixture {
+		h := hs[f.name]
+		if got := h.Hash().Hex(); got != f.hash {
+			r.Violation("C10:hash-of-a-fixed-header-changed", fmt.Sprintf("header %s (height %d) hashes to %s, its Ethereum block hash is %s", f.name, f.height, got, f.hash), map[string]interface{}{"engine": "c10-epoch", "header": f.name})
+			return 1
+		}
+	}
+	parentOf := map[string]string{}
+	for _, f := range epochFixture {
+		parentOf[f.name] = f.parent
+	}
+	var orders [][]string
+	var rec func(done []string, rest []string, premature int)
+	rec = func(done, rest []string, premature int) {
+		if len(rest) == 0 {
+			orders = append(orders, append([]string{}, done...))
+			return
+		}
+		for i, n := range rest {
+			ready := parentOf[n] == "T"
+			for _, d := range done {
+				if d == parentOf[n] {
+					ready = true
+				}
+			}
+			p := premature
+			if !ready {
+				if tier != "thorough" || premature > 0 {
+					continue
+				}
+				p++
+			}
+			nr := append(append([]string{}, rest[:i]...), rest[i+1:]...)
+			nd := append(append([]string{}, done...), n)
+			if !ready {
+				nr = append(nr, n) // refused now, submitted again later
+			}
+			rec(nd, nr, p)
+		}
+	}
+	rec(nil, []string{"A1", "A2", "A3", "B2", "B3"}, 0)
+	type mut struct {
+		name string
+		f    func(h *ethclient.Header)
+	}
+	muts := []mut{
+		{"nonce+1", func(h *ethclient.Header) { h.Nonce++ }},
+		{"mix-digest-flip", func(h *ethclient.Header) { h.MixDigest = append([]byte{}, h.MixDigest...); h.MixDigest[0] ^= 1 }},
+		{"seal-of-the-sibling", func(h *ethclient.Header) { b := hs["B2"]; h.Nonce, h.MixDigest = b.Nonce, b.MixDigest }},
+	}
+	host := c07.NewHost()
+	var mu sync.Mutex
+	var wg sync.WaitGroup
+	sem := make(chan struct{}, 12)
+	update := func(ctx sdk.Context, h ethclient.Header) (err error) {
+		defer func() {
+			if rec := recover(); rec != nil {
+				err = fmt.Errorf("panic: %v", rec)
+			}
+		}()
+		if e := h.ValidateBasic(); e != nil {
+			return e
+		}
+		return host.C.App.XIBCKeeper.ClientKeeper.UpdateClient(ctx, "eth-pow", &h)
+	}
+	newClient := func() sdk.Context {
+		ctx := host.Ctx(time.Unix(int64(epochT0)+1000, 0))
+		g := hs["T"]
+		cs := &ethclient.ClientState{Header: g, ChainId: 1, ContractAddress: common.HexToAddress("0x20000001").Bytes(), TrustingPeriod: 99_999_999, BlockDelay: 1}
+		cons := &ethclient.ConsensusState{Timestamp: g.Time, Height: g.Height, Root: g.Root}
+		if e := host.C.App.XIBCKeeper.ClientKeeper.CreateClient(ctx, "eth-pow", cs, cons); e != nil {
+			panic(e)
+		}
+		return ctx
+	}
+	viol := func(sig, detail string, order []string) {
+		mu.Lock()
+		defer mu.Unlock()
+		r.Violation("C10:"+sig, detail, map[string]interface{}{"engine": "c10-epoch", "order": order})
+	}
+	for _, order := range orders {
+		order := order
+		wg.Add(1)
+		go func() {
+			defer wg.Done()
+			sem <- struct{}{}
+			defer func() { <-sem }()
+			ctx := newClient()
+			accepted := map[string]bool{"T": true}
+			for i, n := range order {
+				h := hs[n]
+				err := update(ctx, h)
+				want := accepted[parentOf[n]]
+				mu.Lock()
+				evals++
+				r.Outcome(fmt.Sprintf("epoch-boundary tree: header at height %d, parent accepted=%v: accepted=%v", h.Height.RevisionHeight, want, err == nil))
+				mu.Unlock()
+				if want && err != nil {
+					viol("valid-child-of-stored-header-rejected/pow-epoch-boundary", fmt.Sprintf("order %v: mined header %s (height %d, child of stored %s) rejected: %v", order[:i+1], n, h.Height.RevisionHeight, parentOf[n], err), order[:i+1])
+					return
+				}
+				if !want && err == nil {
+					viol("header-accepted-before-parent/pow-epoch-boundary", fmt.Sprintf("order %v: header %s accepted although its parent %s was never accepted", order[:i+1], n, parentOf[n]), order[:i+1])
+					return
+				}
+				if err != nil {
+					continue
+				}
+				accepted[n] = true
+				cs, _ := host.C.App.XIBCKeeper.ClientKeeper.GetClientState(ctx, "eth-pow")
+				if cs.GetLatestHeight().GetRevisionHeight() != h.Height.RevisionHeight || cs.(*ethclient.ClientState).Header.Hash().Hex() != epochHash(n) {
+					viol("accepted-header-is-not-head/pow-epoch-boundary", fmt.Sprintf("order %v: after accepting %s the head is height %s", order[:i+1], n, cs.GetLatestHeight()), order[:i+1])
+					return
+				}
+				for a := n; a != ""; a = parentOf[a] {
+					ah := hs[a]
+					cons, ok := host.C.App.XIBCKeeper.ClientKeeper.GetClientConsensusState(ctx, "eth-pow", ah.Height)
+					if !ok || !bytes.Equal(cons.GetRoot(), ah.Root) {
+						viol("consensus-state-on-ancestry-differs/pow-epoch-boundary", fmt.Sprintf("order %v: head %s, consensus state at %s is not ancestor %s's root", order[:i+1], n, ah.Height, a), order[:i+1])
+						return
+					}
+				}
+			}
+		}()
+	}
+	for _, m := range muts {
+		m := m
+		wg.Add(1)
+		go func() {
+			defer wg.Done()
+			sem <- struct{}{}
+			defer func() { <-sem }()
+			ctx := newClient()
+			if err := update(ctx, hs["A1"]); err != nil {
+				return // reported by the orders above
+			}
+			h := hs["A2"]
+			m.f(&h)
+			err := update(ctx, h)
+			mu.Lock()
+			evals++
+			r.Outcome(fmt.Sprintf("epoch-boundary header %s accepted=%v", m.name, err == nil))
+			mu.Unlock()
+			if err == nil {
+				viol("pow-or-difficulty-mutation-accepted/epoch-boundary-"+m.name, "first header of ethash epoch 1 accepted with "+m.name, []string{"A1", "A2*"})
+			}
+		}()
+	}
+	wg.Wait()
+	mu.Lock()
+	r.Count("pow_epoch_boundary_orders", int64(len(orders)))
+	mu.Unlock()
+	return evals
 }
